@@ -99,13 +99,53 @@ def scn_lost(ctx):
     return True
 
 
+class _Ambiguous(object):
+    """A result whose truth value cannot be determined (bool() raises, like a numpy array)."""
+
+    def __bool__(self):
+        raise ValueError("the truth value of this result is ambiguous")
+
+
+def scn_values(ctx):
+    """Combinators that look at their inputs' results (f_or / f_and test truthiness; f_zip, f_sequence
+    and f_apply do not): 2-3 inputs finish in a chosen order with values from a menu that includes
+    falsy values of several types and a value whose bool() raises.  Once every input has finished,
+    the output has finished - whatever that outcome is."""
+    from more_executors import futures as F
+    p = ctx.params
+    name = p["entry"]
+    n = p.get("nin", 2)
+    ev = ctx.ev
+    ins = [RecFuture(ev, "in%d" % i) for i in range(n)]
+    out = {"f_or": F.f_or, "f_and": F.f_and, "f_zip": F.f_zip}[name](*ins)
+    menu = [1, 0, "", [], None, _Ambiguous(), entries.Boom("input failed")]
+    order = list(range(n))
+    if ctx.choice(2, "reverse"):
+        order.reverse()
+    picks = []
+    for i in order:
+        k = ctx.choice(len(menu), "value%d" % i)
+        picks.append((i, k))
+        sched.point()
+        v = menu[k]
+        if isinstance(v, Exception):
+            entries.finish(ins[i], "error", exc=v)
+        else:
+            entries.finish(ins[i], "value", v)
+    sched.vsleep_until(sched.now() + 8 * ctx.eps)
+    ctx.check("future-finishes", out.done(), "%s%r: every input has finished, the output is still pending" % (
+        name, [(i, type(menu[k]).__name__) for i, k in picks]))
+    ctx.reach("values-checked")
+    return True
+
+
 ASSUMPTIONS = [
     "fixed configurations per entry point: retry(max_attempts=2, sleep=1), poll(interval=3, poll fn yields at once), throttle(count=1), timeout(5000 | 2)",
     "finish instant: derived future done <= (instant the underlying work ended) + 64*eps; fallback timers (2 s, 30 s, poll interval) are >> 64*eps",
 ]
 BOUNDS_TEXT = {"quick": "18 entry points (P<=2) + 15 two-layer stacks (P<=1 / P=0), 4-5 ways the work ends; line-level preemption (P<=1) inside retry.py / poll.py / throttle.py / timeout.py",
                "thorough": "P<=2 / P<=1"}
-MUST_REACH = {"*": ["promptness-checked", "external-cancel-ended"]}
+MUST_REACH = {"*": ["promptness-checked", "external-cancel-ended", "values-checked"]}
 BUDGET = {"quick": 90.0, "thorough": 600.0}
 
 
@@ -117,6 +157,8 @@ def plan(tier, seed):
     for n in entries.FN_ENTRIES:
         if n != "f_apply":
             items.append(dict(scenario="lost", params=dict(entry=n, predone=True, nin=3), bounds=dict(P=1 if q else 2)))
+    for n in ("f_or", "f_and", "f_zip"):
+        items.append(dict(scenario="values", params=dict(entry=n, nin=2 if q else 3), bounds=dict(P=0)))
     for n in STACKS2:
         deep = n in ("stack:retry+poll", "stack:poll+retry", "stack:retry+throttle", "stack:map+poll", "stack:flat_map+retry", "stack:timeout+map", "stack:cancel_on_shutdown+retry")
         items.append(dict(scenario="lost", params=dict(entry=n), bounds=dict(P=(1 if deep else 0) if q else (2 if deep else 1))))
